@@ -459,12 +459,14 @@ class FileSplicer:
             if s.word == 'callfn':
                 # N18 for free functions: every call `name(ARGS)` -> `{ <pre> let vx_r = name(ARGS); <post> vx_r }`; $ARG2 = text of the 2nd argument
                 fname = s.args[0]
+                is_meth = fname.startswith('.')     # `.get`: every method call `RECV.get(ARGS)`; $RECV = receiver text
+                fname = fname.lstrip('.')
                 lines_ = s.text.split('\n')
                 cut = next((i_ for i_, l_ in enumerate(lines_) if l_.strip() == '----'), len(lines_))
                 pre0 = '\n'.join(lines_[:cut]); post0 = '\n'.join(lines_[cut + 1:])
                 nhit = 0
                 for k in range(it.body_open + 1, it.body_close):
-                    if src.is_id(k, fname) and src.is_p(k + 1, '(') and not src.is_p(k - 1, '.') and not src.is_id(k - 1, 'fn'):
+                    if src.is_id(k, fname) and src.is_p(k + 1, '(') and (src.is_p(k - 1, '.') if is_meth else (not src.is_p(k - 1, '.') and not src.is_id(k - 1, 'fn'))):
                         po = k + 1; pc = src.match(po)
                         args_ = []; a0 = po + 1; q = po + 1
                         while q < pc:
@@ -473,11 +475,12 @@ class FileSplicer:
                             if tt.kind == 'punct' and tt.text == ',': args_.append(src.text_of(a0, q)); a0 = q + 1
                             q += 1
                         if a0 < pc: args_.append(src.text_of(a0, pc))
-                        sub = lambda t_: t_.replace('$ARG2', args_[1] if len(args_) > 1 else '').replace('$ARG1', args_[0] if args_ else '').replace('$ARG3', args_[2] if len(args_) > 2 else '')
+                        recv_ = src.text_of(self.postfix_start(k - 2), k - 1) if is_meth else ''
+                        sub = lambda t_: t_.replace('$ARG2', args_[1] if len(args_) > 1 else '').replace('$ARG1', args_[0] if args_ else '').replace('$ARG3', args_[2] if len(args_) > 2 else '').replace('$RECV', recv_)
                         pre, ids1 = mark_obligations(sub(pre0)); post, ids2 = mark_obligations(sub(post0))
                         if nhit == 0: clause_ids += ids1 + ids2
                         # path prefix (e.g. `res::value(`) stays in front
-                        self.ed.insert(src.t(k).start if not (src.is_p(k - 1, ':') and src.is_p(k - 2, ':')) else src.t(self.postfix_start(k)).start, '{ %s let vx_r = ' % pre)
+                        self.ed.insert(src.t(self.postfix_start(k - 2)).start if is_meth else (src.t(k).start if not (src.is_p(k - 1, ':') and src.is_p(k - 2, ':')) else src.t(self.postfix_start(k)).start), '{ %s let vx_r = ' % pre)
                         self.ed.insert(src.t(pc).end, '; %s vx_r }' % post)
                         nhit += 1
                 if nhit == 0 and not s.optional:
